@@ -611,4 +611,16 @@ example (ext : List Pt) (g : Geom) :
     (Spec.PartsSame.members [] List.Forall₂.nil
       (List.Forall₂.cons (Spec.PolySame.ext_reverse ext []) List.Forall₂.nil))
 
+/-- [T] geometry collection with its members in another order: same point location, same matrix. -/
+theorem relateSpec_collection_perm {gs gs' : List Geom} (h : gs.Perm gs') (g : Geom) :
+    relateSpec (.collection gs) g = relateSpec (.collection gs') g :=
+  relateSpec_congr_parts (Spec.PartsEquiv.collection_perm h) (Spec.PartsEquiv.refl _)
+
+theorem locate_collection_perm {gs gs' : List Geom} (h : gs.Perm gs') (p : Pt) :
+    locate (.collection gs) p = locate (.collection gs') p :=
+  (Spec.PartsEquiv.collection_perm h).loc p
+
+example (g1 g2 g : Geom) : relateSpec (.collection [g1, g2]) g = relateSpec (.collection [g2, g1]) g :=
+  relateSpec_collection_perm (List.Perm.swap _ _ _) g
+
 end Geo.Proofs.C01
